@@ -41,6 +41,37 @@ START_MODELS = {
     "pheno_advan3": "tests/testdata/nonmem/modeling/pheno_advan3.mod",
     "pheno_advan4": "tests/testdata/nonmem/modeling/pheno_advan4.mod",
 }
+# a start model written for this check: TVCL and TVV get their covariate effects inside ONE IF / ELSE block (one AST node,
+# several statements), so that a transformation can edit a single variable of a multi-assignment block
+PHENO_BLOCK = """$PROBLEM block if
+$INPUT ID TIME AMT WGT APGR DV FA1 FA2
+$DATA {data} IGNORE=@
+$SUBROUTINE ADVAN1 TRANS2
+$PK
+TVCL = THETA(1)
+TVV = THETA(2)
+IF (APGR.LT.5) THEN
+  TVCL = THETA(1)*WGT*(1 + THETA(3))
+  TVV = THETA(2)*WGT
+ELSE
+  TVCL = THETA(1)*WGT
+  TVV = THETA(2)*WGT*(1 + THETA(4))
+END IF
+CL = TVCL*EXP(ETA(1))
+V = TVV*EXP(ETA(2))
+S1 = V
+$ERROR
+IPRED = F
+Y = F + F*EPS(1)
+$THETA (0,0.00469307) ; POP_CL
+$THETA (0,1.00916) ; POP_V
+$THETA (-.99,.1) ; COV_CL
+$THETA (-.99,.2) ; COV_V
+$OMEGA 0.0309626  ; IVCL
+$OMEGA 0.031128  ; IVV
+$SIGMA 0.013241
+$ESTIMATION METHOD=1 INTERACTION
+"""
 # start models that are only checked as they are (read -> code -> TLC), not walked: a $DES model, general linear ones
 EXTRA_MODELS = {
     "pheno_des": "tests/testdata/nonmem/models/pheno_des_assignments.mod",
@@ -51,7 +82,7 @@ EXTRA_MODELS = {
     "pheno_2transits": "tests/testdata/nonmem/modeling/pheno_2transits.mod",
 }
 # per start model: covariate, parameter for the covariate effect, parameter for the extra IIV
-EDIT_TARGETS = {"pheno_real": ("WGT", "V", "S1"), "mox2": ("WT", "VC", "KA"),
+EDIT_TARGETS = {"pheno_real": ("WGT", "V", "S1"), "pheno_block": ("APGR", "CL", "S1"), "mox2": ("WT", "VC", "KA"),
                 "pheno_advan3": ("WGT", "V", "S1"), "pheno_advan4": ("WGT", "V", "S1")}
 
 TIERS = {
@@ -79,6 +110,8 @@ def _load():
                     _MODELS[name] = pm.read_model(path)
                 except Exception:  # noqa: BLE001  (a start model that does not load is simply not used)
                     pass
+    if "pheno_block" not in _MODELS:
+        _MODELS["pheno_block"] = pm.read_model_from_string(PHENO_BLOCK.format(data=core.REPO / "tests/testdata/nonmem/pheno.dta"))
     missing = [n for n in START_MODELS if n not in _MODELS]
     if missing:
         raise core.MachineryError(f"start models not loadable: {missing}")
@@ -106,6 +139,8 @@ def _setter(tok, start):
         "ZI": partial(pm.set_zero_order_input, compartment="CENTRAL", expression=10),
         "COV": partial(pm.add_covariate_effect, parameter=par, covariate=cov, effect="exp"),
         "IIV": partial(pm.add_iiv, list_of_parameters=[iivpar], expression="exp"),
+        "RCL": partial(pm.remove_covariate_effect, parameter="CL", covariate="WGT"),
+        "RV": partial(pm.remove_covariate_effect, parameter="V", covariate="WGT"),
         "FIX": lambda m: pm.fix_parameters(m, [next(p.name for p in m.parameters if p.name not in m.random_variables.parameter_names)]),
     }
     return table[tok]
@@ -169,9 +204,34 @@ def probe_envs(cs, seed, k=2):
             _assigned_of(cs[key], assigned)
     cols = {c["name"] for c in cs["input"] if c["name"] and not c["drop"]}
     cols |= {c.get("synonym") for c in cs["input"] if c.get("synonym")}
+    # every THETA / ETA / EPS the records define gets a value, read by the code or not (the model may use one that the
+    # code has lost)
+    used |= {f"THETA({i})" for i in range(1, len(cs["thetas"]) + 1)}
+    used |= {f"ETA({i})" for i in range(1, sum(_rec_size(r, cs["omegas"], k) for k, r in enumerate(cs["omegas"])) + 1)}
+    used |= {f"EPS({i})" for i in range(1, sum(_rec_size(r, cs["sigmas"], k) for k, r in enumerate(cs["sigmas"])) + 1)}
     names = sorted(n for n in used if n not in assigned and not n.startswith(("A(", "DADT(", "A_0(")) and n != "F")
     unknown = [n for n in names if "(" not in n and n not in cols and n not in ("T", "TIME", "DVID", "NEWIND", "ICALL")]
     rng = random.Random(seed)
+    # both sides of the conditions: an input compared with a literal is probed below the literal first, above it second
+    splits = {}
+
+    def conds(x):
+        if isinstance(x, list):
+            for y in x:
+                conds(y)
+        elif isinstance(x, dict):
+            if x.get("k") == "rel":
+                a, b = x["a"], x["b"]
+                if a.get("k") == "var" and b.get("k") == "num" and a["v"] in names and "(" not in a["v"]:
+                    splits.setdefault(a["v"], Fraction(b["n"], b["d"]))
+                elif b.get("k") == "var" and a.get("k") == "num" and b["v"] in names and "(" not in b["v"]:
+                    splits.setdefault(b["v"], Fraction(a["n"], a["d"]))
+            for y in x.values():
+                conds(y)
+
+    for key in ("pk", "pred", "des", "error"):
+        if cs.get(key):
+            conds(cs[key])
     envs = []
     for _ in range(k):
         th = rng.sample(THETA_POOL, len(THETA_POOL))
@@ -193,6 +253,10 @@ def probe_envs(cs, seed, k=2):
                 raise FE.Unsupported(f"reads {n}")
             else:
                 env[n] = list(rng.choice(DATA_POOL))
+        for name, c in splits.items():
+            if name in env and name not in ("AMT", "DVID"):
+                val = (c - Fraction(3, 2)) if len(envs) % 2 == 0 else (c + Fraction(3, 2))
+                env[name] = [val.numerator, val.denominator]
         if "T" in env and "TIME" in env:
             env["T"] = env["TIME"]
         envs.append(env)
@@ -781,8 +845,9 @@ def plan_histories(states, rng, n_edges, n_walks, walk_len, row_depth=2):
     table = {_key(s["state"]["vec"]): s for s in states}
     starts = {}
     # start vectors as CodeGen.StartState defines them
-    base = dict(elim="FO", tr=0, lag=False, bio=False, metab=False, zoin=False, cov=False, iiv=False, fixd=False)
+    base = dict(elim="FO", tr=0, lag=False, bio=False, metab=False, zoin=False, cov=False, iiv=False, fixd=False, rcov=False)
     starts["pheno_real"] = dict(base, abs="INST", periph=0, depot=False, trans=2)
+    starts["pheno_block"] = dict(base, abs="INST", periph=0, depot=False, trans=2)
     starts["mox2"] = dict(base, abs="FO", periph=0, depot=True, trans=2)
     starts["pheno_advan3"] = dict(base, abs="INST", periph=1, depot=False, trans=3)
     starts["pheno_advan4"] = dict(base, abs="FO", periph=1, depot=True, trans=3)
